@@ -402,6 +402,50 @@ caller sees -/
 def run (h : Params) (program : Bytes) : List Ev :=
   (trace h program).filter Ev.visible
 
+/-! ### the same, call by call (the API as the caller uses it; `Props.C04.next_row_iteration`
+shows that it produces exactly `run`) -/
+
+/-- result of one `LineRows::next_row` call -/
+inductive Next where
+  | row (r : Row)      -- `Ok(Some((header, &row)))`
+  | none               -- `Ok(None)`
+  | err (e : Err)      -- `Err(e)`
+  | stuck
+  deriving DecidableEq, Repr
+
+/-- the `loop` inside `LineRows::next_row`; returns the result and the new `(self.row,
+self.instructions.input)` -/
+def nextRowLoop (h : Params) : Nat → Row → Bytes → Next × Row × Bytes
+  | 0, row, input => (.stuck, row, input)
+  | fuel + 1, row, input =>
+    if input.isEmpty then (.none, row, input)
+    else match parseInstr h input with
+      | .err e => (.err e, row, [])                 -- `self.input.empty()`
+      | .panic _ => (.stuck, row, input)
+      | .diverge => (.stuck, row, input)
+      | .ok (ins, rest) =>
+        match execute h row ins with
+        | (row, .err e) => (.err e, row, rest)
+        | (row, .noEmit) => nextRowLoop h fuel row rest
+        | (row, .emit) =>
+          if row.tombstone then nextRowLoop h fuel (reset h row) rest
+          else (.row row, row, rest)
+
+/-- `LineRows::next_row`: `self.row.reset(header)`, then the loop -/
+def nextRow (h : Params) (row : Row) (input : Bytes) : Next × Row × Bytes :=
+  nextRowLoop h (input.length + 1) (reset h row) input
+
+/-- the caller's loop: `next_row()` until `Ok(None)`, everything it returned -/
+def collect (h : Params) : Nat → Row → Bytes → List Ev
+  | 0, _, _ => [.stuck]
+  | fuel + 1, row, input =>
+    match nextRow h row input with
+    | (.none, _, _) => []
+    | (.stuck, _, _) => [.stuck]
+    | (.row r, row, input) => .row r :: collect h fuel row input
+    | (.err e, row, input) => .err e :: collect h fuel row input
+
+
 /-- `LineInstructions::next_instruction` until `Ok(None)` (`header.instructions()`); the first
 error ends the iteration (the input is emptied) -/
 def decodeAll (h : Params) : Nat → Bytes → Out (List Instr)
